@@ -1435,6 +1435,8 @@ PROPOSED_WITNESSES = [
      'case': {'objs': [['a', [[1.0, 2.0], [0.0, 3.0]]]], 'ops': [['conv', 'SA', 0]]}},
     {'key': 'C09:sparse-copy-flag-ignored',
      'case': {'objs': [['v', [1.0, 2.0], False]], 'ops': [['conv', 'spc', 0]]}},
+    {'key': 'C09:broadcast-not-supported:set',
+     'case': {'objs': [['l', [False]]], 'ops': [['set', 0, ['li', []], ['l2', [[], []]], {'raw': True}]]}},
     {'key': 'C09:empty-selection-shape',
      'case': {'objs': [['a', [[1.0, 2.0], [0.0, 3.0]]]], 'ops': [['aget', 0, ['pair', ['sl', 0, 0, None], ['sl', 0, 2, None]], {'raw': True}]]}},
 ]
